@@ -22,6 +22,13 @@ func init() {
 }
 
 func runC27(c *eng.Ctx) {
+
+	// the pages an S3 listing is assembled from come from the filer's paged listing (FilerServer.ListEntries ->
+	// StreamListDirectoryEntries -> doListValidEntries): every refill inside those loops continues behind the last name
+	// seen, otherwise keys are enumerated twice
+	if n := cursorAdvances(c, "CURSOR-filer-pages", map[string]bool{"ListEntries": true, "StreamListDirectoryEntries": true, "doListValidEntries": true}); n < 3 {
+		c.Undecided("CURSOR-filer-pages", "discovery", token.NoPos, fmt.Sprintf("only %d paged listing loops found under the S3 listing (expected 3)", n))
+	}
 	P := c.P
 	fn := c.NeedFunc("weed/s3api", "(*S3ApiServer).doListFilerEntries")
 	if fn == nil {
